@@ -93,6 +93,20 @@ def mc_wire(rep, tier):
     rep.cov["spec_sensitivity"] = {"OutOfDomain": s.violated}
 
 
+def mc_wire_machine(rep, tier):
+    """The operational encoder (work list, placeholder, back-patch, checksum over the prefix) refines Wire.tla."""
+    cfg = open(os.path.join(tlc.SPEC, "MCWireMachine.cfg")).read()
+    if tier != "thorough":
+        cfg = cfg.replace('Shapes = {"S1", "S2"}', 'Shapes = {"S2"}')
+    r = tlc.run_tlc("WireMachine", cfg, workers=8, timeout=3000, heap="8g")
+    tlc.require_ok(r, "WireMachine (Refines, AppendOnlyExceptPatch, ChecksumSeesPrefix, PrimsDiscipline)")
+    rep.tlc(r)
+    s = tlc.run_tlc("WireMachine", cfg.replace("MeasureFromPlaceholder = FALSE", "MeasureFromPlaceholder = TRUE"), workers=8, timeout=900, heap="8g")
+    if "Refines" not in s.violated:
+        raise Infra("WireMachine with MeasureFromPlaceholder does not violate Refines: the specification is vacuous")
+    rep.cov.setdefault("spec_sensitivity", {})["MeasureFromPlaceholder"] = s.violated
+
+
 _RESULTS = {}
 
 
@@ -180,6 +194,8 @@ def check_codec(pid, tier):
     if not use:
         raise Infra("no language plug-in available")
     mc_wire(rep, tier if pid in ("C01", "C02") else "quick")
+    if pid == "C04" or (tier == "thorough" and pid in ("C01", "C06")):
+        mc_wire_machine(rep, tier)
     progs, results, tmp = run_family(tier, use, FOCUS[pid], rep)
     events, meta = codec.trace_of(results, use)
     rs, verdicts = codec.validate(events, meta, shards=12)
